@@ -117,6 +117,18 @@ def run_group(ctx, prop, lean=True, other_tiers=True):
         #    stated - e.g. after a harmless renaming of a local or a restructured loop) every fact the decisive clauses get from that
         #    invariant is gone, so their failure says nothing about the property.
         # In both cases the function is PROOF-DEGRADED and the bounded tier decides (never an alarm on code where the property holds).
+        if c.get('trace'):
+            # contracts under the EVENT abstraction of the writers identify a piece of text by how it is written (one event per
+            # write() call, its template and arguments), which is finer than the property (the text itself): writing the same text in
+            # different pieces refutes the trace equation although nothing a reader sees changed.  Such a postcondition failure is
+            # therefore never an alarm by itself - the bounded tier reads the text back; hazards / exceptions stay decisive.
+            tr = [ob for ob in failed_dec if ob.kind == 'post']
+            if tr:
+                for ob in tr:
+                    p['undecided'].append({'function': fname, 'obligation': ob.ident, 'verdict': ob.verdict})
+                print('PROOF-DEGRADED {}: {} trace postcondition(s) of the event abstraction no longer discharge (the pieces the text is '
+                      'written in changed); the bounded tier decides on the text itself'.format(fname, len(tr)))
+                failed_dec = [ob for ob in failed_dec if ob.kind != 'post']
         stale = [ob for ob in failed_dec if 'not expressible' in ob.name]
         # an obligation no solver could decide within its budget is UNDECIDED, never a violation
         unknown = [ob for ob in failed_dec if ob.verdict != 'refuted']
